@@ -127,6 +127,7 @@ func backendFaultRun(r *prng.R, kind string, n, t int, silent uint16, k int, wit
 }
 
 func runFaults(r *prng.R, s *out.Sink, tier string) {
+	faultsBackPressure(s)
 	threshold.SyncInterval = 4 * time.Millisecond
 	base := runtime.NumGoroutine()
 	kinds := []string{"bls"}
